@@ -28,11 +28,25 @@ ASSUMPTIONS = [
 TRUSTED = ["CPython ast", "sa.cfg path queries (must-pass-through)", "sa.dataflow def-use"]
 
 
-def _has_rechunk_to(value, target_names):
-    """value contains a call ``<x>.rechunk(T)`` with T one of target expressions."""
+def _has_rechunk_to(value, target_names, module=None, depth=0):
+    """value contains a call ``<x>.rechunk(T)`` with T one of target expressions - directly, or through a same-module
+    helper every normal return of which rechunks to the parameter that the call binds to T (a wrapper: the bridge
+    extracted into a private function is still the bridge)."""
     for n in ast.walk(value):
         if isinstance(n, ast.Call) and isinstance(n.func, ast.Attribute) and n.func.attr == "rechunk" and n.args:
             if unparse(n.args[0]) in target_names:
+                return True
+        if module is not None and depth < 2 and isinstance(n, ast.Call) and isinstance(n.func, ast.Name):
+            g = module.functions.get(n.func.id)
+            if g is None or g.cls is not None:
+                continue
+            pos = [a.arg for a in g.node.args.posonlyargs + g.node.args.args]
+            bound = {pos[i] for i, a in enumerate(n.args) if i < len(pos) and not isinstance(a, ast.Starred) and unparse(a) in target_names}
+            bound |= {k.arg for k in n.keywords if k.arg in pos and unparse(k.value) in target_names}
+            if not bound:
+                continue
+            rets = [r for r in body_walk(g.node) if isinstance(r, ast.Return)]
+            if rets and all(r.value is not None and _has_rechunk_to(r.value, bound, module, depth + 1) for r in rets):
                 return True
     return False
 
@@ -89,7 +103,7 @@ def r03_1(ctx):
     advn = adv[0]
 
     def blocked(n):
-        return isinstance(n, ast.Assign) and any(isinstance(t, ast.Name) and t.id == param for t in n.targets) and _has_rechunk_to(n.value, {advn})
+        return isinstance(n, ast.Assign) and any(isinstance(t, ast.Name) and t.id == param for t in n.targets) and _has_rechunk_to(n.value, {advn}, f.module)
 
     def blocked_edge(a, lbl, b):
         if isinstance(a, ast.If):
